@@ -174,6 +174,11 @@ def handler_converts(h: ast.ExceptHandler, hierarchy: Callable[[str, str], bool]
     return 'reraise'
 
 
+def _is_noreturn_call(st: ast.stmt) -> bool:
+    from .pyfacts import NORETURN_NAMES, dotted
+    return isinstance(st, ast.Expr) and isinstance(st.value, ast.Call) and dotted(st.value.func).split('.')[-1] in NORETURN_NAMES
+
+
 def dominating_guards(site_node: ast.AST) -> List[Tuple[str, bool]]:
     """(normalised test, polarity) of conditions known at the site from lexical structure:
     enclosing `if T:` -> (T, True) / else-branch -> (T, False); earlier sibling `if T: raise/return/continue` -> (T, False)."""
@@ -216,8 +221,12 @@ def dominating_guards(site_node: ast.AST) -> List[Tuple[str, bool]]:
                 for s in seq:
                     if s is child:
                         break
-                    if isinstance(s, ast.If) and not s.orelse and s.body and isinstance(s.body[-1], (ast.Raise, ast.Return, ast.Continue, ast.Break)):
+                    if isinstance(s, ast.If) and not s.orelse and s.body and (isinstance(s.body[-1], (ast.Raise, ast.Return, ast.Continue, ast.Break))
+                                                                              or _is_noreturn_call(s.body[-1])):
                         out.append((norm(s.test), False))
+                        rt2 = named_predicate(fn0, s.test) if fn0 is not None else s.test
+                        if rt2 is not s.test:
+                            out.append((norm(rt2), False))
                     if isinstance(s, ast.If) and s.body and isinstance(s.body[0], ast.Raise):
                         out.append((norm(s.test), False))
         if isinstance(a, (ast.FunctionDef, ast.AsyncFunctionDef)):
@@ -282,3 +291,42 @@ class GuardFacts:
 
     def __iter__(self):          # type: ignore[no-untyped-def]
         return iter(())
+
+
+def range_bounded_index(sub: ast.Subscript) -> Optional[str]:
+    """`S[i + k]` (k an integer literal, possibly negative or absent) where i is the variable of an enclosing
+    `for i in range([lo,] len(S) [+/- d])` and lo + k >= 0 and the upper end keeps i + k <= len(S) - 1: the proof text, else None."""
+    from .pyfacts import ancestors, dotted, norm
+    idx = sub.slice
+    k = 0
+    var = None
+    if isinstance(idx, ast.Name):
+        var = idx.id
+    elif isinstance(idx, ast.BinOp) and isinstance(idx.op, (ast.Add, ast.Sub)) and isinstance(idx.left, ast.Name) \
+            and isinstance(idx.right, ast.Constant) and isinstance(idx.right.value, int):
+        var, k = idx.left.id, (idx.right.value if isinstance(idx.op, ast.Add) else -idx.right.value)
+    if var is None:
+        return None
+    base = norm(sub.value)
+    for a in ancestors(sub):
+        if isinstance(a, ast.For) and isinstance(a.target, ast.Name) and a.target.id == var and isinstance(a.iter, ast.Call) \
+                and dotted(a.iter.func) == 'range' and 1 <= len(a.iter.args) <= 2:
+            lo = 0
+            hi = a.iter.args[-1]
+            if len(a.iter.args) == 2:
+                if not (isinstance(a.iter.args[0], ast.Constant) and isinstance(a.iter.args[0].value, int)):
+                    return None
+                lo = a.iter.args[0].value
+            hi_off = 0
+            if isinstance(hi, ast.BinOp) and isinstance(hi.op, (ast.Add, ast.Sub)) and isinstance(hi.right, ast.Constant) and isinstance(hi.right.value, int):
+                hi_off = hi.right.value if isinstance(hi.op, ast.Add) else -hi.right.value
+                hi = hi.left
+            if norm(hi) != f'len({base})':
+                return None
+            # the loop variable and the sequence are not re-bound inside the loop
+            if any(isinstance(x, ast.Name) and isinstance(x.ctx, ast.Store) and x.id in (var, base) for st in a.body for x in ast.walk(st)):
+                return None
+            if lo + k >= 0 and hi_off + k <= 0:
+                return f'BOUNDED: {var} ranges over range({lo}, len({base}){hi_off:+d}); index {var}{k:+d} stays inside the list'
+            return None
+    return None
